@@ -17,17 +17,18 @@ PROP = "C05"
 MANIFEST = dict(
     level="model_checking", design_ref="DESIGN.md 8 (C05), 7 (Clock), Appendix A.4",
     technique="TLA+ model of the clock (TLC: all command histories x callback/chunk partitions, reader/publisher interleavings at word granularity) against an exact reference; TLC schedules replayed on the real clock through cfg(kira_verif) yield points; TLC trace validation against P_C05; two known findings matched by signature",
-    text="TLC checks that for every history of start/pause/stop/speed commands and every partition of time into callbacks and internal chunks the published time equals speed x running time at a chunk boundary, that a sound scheduled for a clock time starts in the chunk during which the ticking clock reaches it (never late, never while paused or short), and explores every interleaving of a two-word time() read with the audio thread's two-word publication. Generated schedules are forced onto the real clock; every recorded session is validated by TLC against the same reference.",
-    note="Speeds and times are dyadic (1/4 tick units) so comparisons are exact. Speed tweens of non-zero duration are not generated (the code integrates them stepwise per chunk; the statement gives no tolerance). A stop() overlapping a callback or a read (second writer of the two words) is not explored. Known findings D10 (torn read) and D11 (own-time speed change never fires) are listed in known_findings.json; the missing-clock cancellation is covered by C03.")
+    text="TLC checks that for every history of start/pause/stop/speed commands (immediate, or delayed by some frames of audio time that pass whether or not the clock ticks) and every partition of time into callbacks and internal chunks the published time equals speed x running time at a chunk boundary, that a sound scheduled for a clock time starts in the chunk during which the ticking clock reaches it (never late, never while paused or short), and explores every interleaving of a two-word time() read with the audio thread's two-word publication. Generated schedules are forced onto the real clock; every recorded session is validated by TLC against the same reference.",
+    note="Speeds and times are dyadic (1/4 tick units) so comparisons are exact. Speed changes are zero-length tweens, immediate or delayed by a number of frames; tweens of non-zero duration are not generated (the code integrates them stepwise per chunk; the statement gives no tolerance). A stop() overlapping a callback or a read (second writer of the two words) is not explored. Known findings D10 (torn read) and D11 (own-time speed change never fires) are listed in known_findings.json; the missing-clock cancellation is covered by C03.")
 
 
-def cfg(b, ns, speeds, targets, maxcmd, maxcb, maxrd, maxsched, own, extra, spec=None):
+def cfg(b, ns, speeds, targets, maxcmd, maxcb, maxrd, maxsched, own, extra, spec=None, delays=()):
     return """SPECIFICATION %s
 CONSTANTS
   B = %d
   Ns = {%s}
   Speeds = {%s}
   Targets = {%s}
+  Delays = {%s}
   MaxCmd = %d
   MaxCb = %d
   MaxRd = %d
@@ -36,7 +37,7 @@ CONSTANTS
 %s
 CHECK_DEADLOCK FALSE
 """ % (spec or ("GSpec" if "D =" in extra else "Spec"), b, ", ".join(map(str, ns)), ", ".join(map(str, speeds)),
-       ", ".join(map(str, targets)), maxcmd, maxcb, maxrd, maxsched, "TRUE" if own else "FALSE", extra)
+       ", ".join(map(str, targets)), ", ".join(map(str, delays)), maxcmd, maxcb, maxrd, maxsched, "TRUE" if own else "FALSE", extra)
 
 
 def write_cfg(name, text):
@@ -51,6 +52,7 @@ def model_check(res, tier):
     runs = [
         ("sequential", cfg(2, [1, 3], [1, 2, 4], [3, 8], 2 if q else 3, 4 if q else 5, 0, 1, False, "VIEW View\nINVARIANTS PropertyHoldsSequential InternalTimeExact")),
         ("reads", cfg(2, [1, 3], [1, 2, 4], [3], 2, 3 if q else 4, 2, 0, False, "VIEW View\nINVARIANTS PropertyHolds InternalTimeExact")),
+        ("delayed", cfg(2, [1, 3], [1, 2], [3], 2 if q else 3, 4 if q else 5, 0, 0, False, "VIEW View\nINVARIANTS PropertyHoldsSequential InternalTimeExact", delays=[1, 2, 5])),
         ("own-time", cfg(2, [1, 3], [1, 2], [3, 8], 2, 4 if q else 5, 0, 0, True, "VIEW View\nINVARIANTS PropertyHoldsSequential InternalTimeExact")),
     ]
     if not q:
@@ -60,8 +62,8 @@ def model_check(res, tier):
         if st["violated"]:
             res.drift.append({"model": "Clock/" + name, "violated": st["violated"]})
         res.add_mc("Clock/" + name, st)
-    for w, own, rd, sch in (("W_Torn", False, 2, 0), ("W_Own", True, 0, 0), ("W_Fired", False, 0, 1)):
-        tlc_check("MC_Clock.tla", write_cfg("Clock_%s.cfg" % w, cfg(2, [1, 3], [1, 2], [3], 2, 4, rd, sch, own, "VIEW View\nINVARIANT " + w)),
+    for w, own, rd, sch in (("W_Torn", False, 2, 0), ("W_Own", True, 0, 0), ("W_Fired", False, 0, 1), ("W_DelayRanOutWhileNotTicking", False, 0, 0)):
+        tlc_check("MC_Clock.tla", write_cfg("Clock_%s.cfg" % w, cfg(2, [1, 3], [1, 2], [3], 2, 4, rd, sch, own, "VIEW View\nINVARIANT " + w, delays=[2])),
                   workers=4, timeout=900, expect_violation=w, tag="c05w")
 
 
@@ -73,11 +75,11 @@ def generate(tier, rng):
         for x in bs:
             scen.append({"b": b, "speed0": min(speeds), "src": src, "steps": x})
     for b, ns, speeds, targets in ((2, [1, 3, 4], [1, 2, 4], [3, 8, 13]), (4, [1, 4, 6], [1, 2], [2, 9]), (1, [1, 2], [2, 4], [4, 6])):
-        base = cfg(b, ns, speeds, targets, 6, 12, 0, 1, False, "  D = 34\nCONSTRAINT Bound\nINVARIANT Dump\n")
-        add(tlc_generate("Gen_Clock.tla", write_cfg("Gen_Clock_seq_%d.cfg" % b, base), "sim", num=num, depth=36, tag="c05g")[:num * 2], b, speeds, "tlc-sim")
+        base = cfg(b, ns, speeds, targets, 6, 12, 0, 1, False, "  D = 28\nCONSTRAINT Bound\nINVARIANT Dump\n", delays=[1, 3, 6])
+        add(tlc_generate("Gen_Clock.tla", write_cfg("Gen_Clock_seq_%d.cfg" % b, base), "sim", num=num * 3, depth=36, tag="c05g")[:num * 3], b, speeds, "tlc-sim")
         base = cfg(b, ns, speeds, targets, 4, 10, 8, 0, False, "  D = 34\nCONSTRAINT Bound\nINVARIANT Dump\n")
         add(tlc_generate("Gen_Clock.tla", write_cfg("Gen_Clock_rd_%d.cfg" % b, base), "sim", num=num, depth=36, tag="c05g")[:num * 2], b, speeds, "tlc-sim-reads")
-        base = cfg(b, ns, speeds, targets, 3, 8, 0, 0, True, "  D = 26\nCONSTRAINT Bound\nINVARIANT Dump\n")
+        base = cfg(b, ns, speeds, targets, 3, 8, 0, 0, True, "  D = 18\nCONSTRAINT Bound\nINVARIANT Dump\n")
         add(tlc_generate("Gen_Clock.tla", write_cfg("Gen_Clock_own_%d.cfg" % b, base), "sim", num=num // 3, depth=28, tag="c05g")[:num], b, speeds, "tlc-sim-own")
     # directed witnesses of the two known findings (shortest schedules)
     add(tlc_generate("Gen_Clock.tla", write_cfg("Gen_Clock_torn.cfg", cfg(2, [1, 3], [1, 2], [3], 2, 4, 2, 0, False,
